@@ -7,6 +7,7 @@ import HappyProofs.C20.MerkleDiff
 import HappyProofs.C20.MerkleExt
 import HappyProofs.C20.MerkleState
 import HappyProofs.C20.SeqInst
+import HappyProofs.C20.TDigest
 /-!
 # C20 — property theorems
 
@@ -20,8 +21,10 @@ its ranges cover every key whose value differs."
 
 Every theorem says: the Spec predicate of `HappyModel/C20/Spec.lean` (the one the driver evaluates
 on the implementation's transcripts) is true of what the *model* answers — for every hash function
-`h`, every stream, every split, every random script.  The t-digest clauses have no model (float
-centroid arithmetic); they are judged on the implementation's outputs only.
+`h`, every stream, every split, every random script.  t-digest: the float centroid arithmetic of
+`add` / `_compress` has no model; the *quantile function* has (`HappyModel/C20/TDigest.lean`: the walk of
+`TDigest.quantile` over an arbitrary sorted centroid list, exact arithmetic) and the two clauses are proved
+for it; the driver ties the real object to it on the centroid lists the real object holds.
 -/
 namespace HappyModel.C20
 
@@ -419,5 +422,43 @@ example :
     diffTrees (fun k v => 2 * (100 * k + v)) (fun a b => 2 * (1000000 * a + b) + 1)
       (build (mapVals (fun v => if v = 16 then 1 else v) [(0, 1)]))
       (build (mapVals (fun v => if v = 16 then 1 else v) [(0, 16)])) = [] := by decide
+
+/-! ## t-digest: the quantile walk over any well-formed digest -/
+
+/-- **t-digest quantiles are non-decreasing in q**: for every digest with centroids sorted by mean,
+    positive weights and means within `[lo, hi]`, and all `a₁ ≤ a₂ ≤ b`:
+    `quantile(a₁/b) ≤ quantile(a₂/b)` (exact fractions) -/
+theorem tdigest_quantile_monotone (d : TD) (wf : d.WF) (a1 a2 b : Nat) (hb : 0 < b) (h12 : a1 ≤ a2)
+    (h2b : a2 ≤ b) : (d.quantile a1 b).v.le (d.quantile a2 b).v :=
+  TD.quantile_mono d wf a1 a2 b hb h12 h2b
+
+/-- **… and lie within the observed minimum and maximum** -/
+theorem tdigest_quantile_within_min_max (d : TD) (wf : d.WF) (a b : Nat) (hb : 0 < b) :
+    (d.quantile a b).v.within d.lo d.hi :=
+  TD.quantile_within d wf a b hb
+
+/-- the tie the judge evaluates (`Judge.tdTieCheck`): on a digest that passes the executable
+    well-formedness test, every observed value the model answer *admits* (it lies in the bracket of the
+    rule the walk applies; for `return centroid.mean` it is that mean) lies within `[lo, hi]`, and the
+    exact answer lies in the same bracket -/
+theorem tdigest_tie_sound (d : TD) (h : d.wfB = true) (a b : Nat) (hb : 0 < b) (r : Int)
+    (hr : (d.quantile a b).admits r = true) :
+    (d.lo ≤ r ∧ r ≤ d.hi) ∧ (d.quantile a b).v.within (d.quantile a b).lo (d.quantile a b).hi :=
+  ⟨TD.admitted_within d (TD.wf_of_wfB d h) a b hb r hr,
+   (quantile_in_bracket d (TD.wf_of_wfB d h) a b hb).2.2.2.2⟩
+
+/-- not vacuous: a digest with three centroids between min 5 and max 50 is well formed; its quantiles on the
+    grid i/16 use every rule: min, interpolation from min (7.5), first mean, interpolation between centroids
+    (16⅔, 18⅓), a middle mean, the last mean, interpolation to max (43⅓, 46⅔), max; the bracket of 1/16 is [5, 10] -/
+def demoTD : TD := ⟨[(10, 2), (20, 3), (40, 3)], 5, 50⟩
+
+example : demoTD.wfB = true ∧ demoTD.N = 8 := by decide
+
+example :
+    (List.range 17).map (fun i => (demoTD.quantile i 16).v) =
+      [⟨5, 1⟩, ⟨240, 32⟩, ⟨10, 1⟩, ⟨10, 1⟩, ⟨10, 1⟩, ⟨1600, 96⟩, ⟨1760, 96⟩, ⟨20, 1⟩, ⟨20, 1⟩, ⟨20, 1⟩, ⟨20, 1⟩,
+       ⟨40, 1⟩, ⟨40, 1⟩, ⟨40, 1⟩, ⟨2080, 48⟩, ⟨2240, 48⟩, ⟨50, 1⟩] ∧
+    (demoTD.quantile 1 16).admits 7 = true ∧ (demoTD.quantile 1 16).admits 11 = false ∧
+    (demoTD.quantile 2 16).admits 11 = false ∧ (demoTD.quantile 2 16).admits 10 = true := by decide
 
 end HappyModel.C20
